@@ -218,8 +218,13 @@ class BO(Conversions):
         """
         super().__setitem__(key, value)
 
+        # only register the labels that the parent class registered as
+        # variables: those that survive squashing, and only for nonzero values
+        if not value:
+            return
+        squashed = self.__class__.squash_key(key)
         for i in key:
-            if i not in self._mapping:
+            if i in squashed and i not in self._mapping:
                 self._mapping[i] = self._next_label
                 self._reverse_mapping[self._next_label] = i
                 self._next_label += 1
